@@ -475,6 +475,22 @@ def container_slot(ctx, label, name, writers, readers, mod):
             back = (g, hit)
             break
     if back is None:
+        # read somewhere, though not in a return statement (assigned to a local, stored on an object): where the value goes
+        # from there is not followed
+        elsewhere = []
+        for g in {w[0] for w in writers} | set(readers):
+            for x in own_nodes(g.node):
+                if ((isinstance(x, ast.Name) and x.id == name) or (isinstance(x, ast.Attribute) and x.attr == name)) and isinstance(x.ctx, ast.Load):
+                    par = ctx.prog.parent.get(x)
+                    if isinstance(par, ast.Subscript) and par.value is x and isinstance(par.ctx, ast.Load) and isinstance(ctx.prog.parent.get(par), (ast.Assign, ast.Return, ast.Call, ast.BinOp)) \
+                            and not (isinstance(ctx.prog.parent.get(par), ast.Call) and ctx.prog.parent.get(par).func is par):
+                        gp = ctx.prog.parent.get(par)
+                        if isinstance(gp, ast.Assign) and gp.value is par:
+                            elsewhere.append((g, x))
+        if elsewhere:
+            ctx.undecided("C09.3", elsewhere[0][0], "%s is filled by earlier operations and %s reads an entry of it into a local (`%s`); where that value goes was not followed" % (
+                label, elsewhere[0][0].qualname, norm(ctx.prog.parent.get(ctx.prog.parent.get(elsewhere[0][1])))[:60]), label)
+            return
         ctx.holds("C09.2", fw, "%s is filled by %s but never read back into a result" % (label, fw.qualname), label)
         return
     g = back[0]
